@@ -306,8 +306,11 @@ double Chain::bendCost(LinkShape bendType, size_t i0) const {
     double alpha0 = atan2(dy, dx) * 180 / 3.141592653589793;
     double cost;
     // Want a little helper function for checking angle ranges.
+    // The angles are computed in floating point, so allow for rounding error
+    // at the ends of the ranges (e.g. for exactly axis-aligned links).
     std::function<void(double, double)> check = [](double a, double L)->void{
-        COLA_ASSERT(-L < a && a <= L);
+        const double eps = 1e-9;
+        COLA_ASSERT(-L - eps < a && a <= L + eps);
     };
     if (m_isCycle) {
         // For a cycle each type of bend has a specific angle associated with it,
